@@ -210,14 +210,14 @@ class BodyMixin:
                 dct = forms
             key = item.name
 
-            if key in post:
-                el = post[key]
-                if key not in listified:
-                    el = post[key] = dct[key] = [el]
-                    listified.add(key)
-                el.append(it)
-            else:
-                post[key] = dct[key] = it
+            for d in (post, dct):
+                if key in d:
+                    if (id(d), key) not in listified:
+                        d[key] = [d[key]]
+                        listified.add((id(d), key))
+                    d[key].append(it)
+                else:
+                    d[key] = it
         return post
 
     @cache_in('environ[ ombott.request.forms ]', read_only=True)
